@@ -143,6 +143,9 @@ structure Cleanup where
   cid : Nat
   tag : Nat
   nested : Bool
+  /-- the closure owns a value whose destructor drops this `Owner` (an `ImmediateEffect` handed to
+  `on_cleanup` by `new_scoped`) -/
+  drops : Option Nat
   deriving DecidableEq, Repr, Inhabited
 
 structure CtxEntry where
@@ -230,8 +233,8 @@ def childOwner (st : Core) (o : Nat) : Core × Nat :=
   | none => newOwnerUnder st none false
 
 /-- `Owner::on_cleanup` -/
-def regCleanup (st : Core) (tag : Nat) (nested : Bool) : Core :=
-  let c : Cleanup := ⟨st.nextCid, tag, nested⟩
+def regCleanup (st : Core) (tag : Nat) (nested : Bool) (drops : Option Nat) : Core :=
+  let c : Cleanup := ⟨st.nextCid, tag, nested, drops⟩
   let st := { st with nextCid := st.nextCid + 1 }
   match currentOwner st with
   | some o => st.modOwner o fun r => { r with cleanups := r.cleanups ++ [c] }
@@ -320,6 +323,12 @@ def dropFrames : Option Val → List Frame
   | some (Val.memo _ ow) => [Frame.drop ow true]
   | _ => []
 
+/-- destructor of what a cleanup closure owns, run when the closure has been called and is dropped -/
+def closureFrames (c : Cleanup) : List Frame :=
+  match c.drops with
+  | some ow => [Frame.drop ow true]
+  | none => []
+
 /-- the record after `mem::take` of the three lists in `cleanup` (contexts: ghost flag only) -/
 def clearedRec (r : OwnerRec) : OwnerRec :=
   { r with children := [], cleanups := [], nodes := [], contexts := staleAll r.contexts }
@@ -339,8 +348,7 @@ def stepFrame (st : Core) : Frame → Core × List Frame
     | none => (st, [])
   | .run c ow late =>
     let st := logEv st (Ev.c c.tag c.cid ow late)
-    if c.nested then (newStored (regCleanup st (c.tag + 100) false) c.tag, [])
-    else (st, [])
+    (if c.nested then newStored (regCleanup st (c.tag + 100) false none) c.tag else st, closureFrames c)
   | .remove k _ => ({ st with arena := (st.arena.remove k).1 }, dropFrames (st.arena.remove k).2)
 
 def runFrames : Nat → Core → List Frame → Core × List Frame
@@ -348,7 +356,7 @@ def runFrames : Nat → Core → List Frame → Core × List Frame
   | _ + 1, st, [] => (st, [])
   | n + 1, st, f :: fs => runFrames n (stepFrame st f).1 ((stepFrame st f).2 ++ fs)
 
-def cleanupW (c : Cleanup) : Nat := if c.nested then 4 else 1
+def cleanupW (c : Cleanup) : Nat := (if c.nested then 4 else 1) + (if c.drops.isSome then 1 else 0)
 
 def frameW : Frame → Nat
   | .visit _ _ => 1
@@ -424,7 +432,32 @@ inductive EffKind where
   | watch (imm : Bool) (hb : Nat)
   | render
   | async
+  /-- `ImmediateEffect::new` / `new_isomorphic` (`sc = false`: the caller keeps the handle),
+  `new_scoped` (`sc = true`: the handle moves into an `on_cleanup` closure of the current owner),
+  `new_mut` (`mutf = true`: the function sits behind a `Mutex` and panics on recursion).  Not an
+  arena value, no task: marking it dirty runs it at once, under `owner.with_cleanup(..)` -/
+  | imm (sc : Bool) (mutf : Bool)
+  /-- a task spawned through `ScopedFuture` (`spawn_local_scoped`, with `cancel`:
+  `spawn_local_scoped_with_cancellation`): it holds the owner and observer that were current when it
+  was spawned and is polled under them -/
+  | task (cancel : Bool)
   deriving DecidableEq, Repr, Inhabited
+
+def EffKind.isImm : EffKind → Bool
+  | .imm _ _ => true
+  | _ => false
+
+def EffKind.isMut : EffKind → Bool
+  | .imm _ m => m
+  | _ => false
+
+def EffKind.isScopedImm : EffKind → Bool
+  | .imm s _ => s
+  | _ => false
+
+def EffKind.isTask : EffKind → Bool
+  | .task _ => true
+  | _ => false
 
 structure EffRec where
   /-- the arena entry owning the channel's sender (`none`: `RenderEffect`, or under construction) -/
@@ -438,8 +471,21 @@ structure EffRec where
   done : Bool
   sources : List Nat
   kind : EffKind
-  /-- a strong reference outside the arena: the `RenderEffect` handle, or the value being constructed -/
+  /-- a strong reference outside the arena: the `RenderEffect` / `ImmediateEffect` handle, the value
+  being constructed, the future of a scoped task that cannot be cancelled -/
   held : Bool
+  /-- `ImmediateEffect`: `run_count_start`, `run_done_count`, `run_done_max` -/
+  runStart : Nat := 0
+  runDone : Nat := 0
+  runDoneMax : Nat := 0
+  /-- the registered cleanup whose closure decides over this entry: the closure that owns the
+  `ImmediateEffect` of `new_scoped` (the effect lives until it has run), or the one that owns the
+  `AbortHandle` of a cancellable task (the task runs user code until it has run) -/
+  dropCid : Option Nat := none
+  /-- scoped task: the observer captured by `ScopedFuture::new` -/
+  tobs : Option Sub := none
+  /-- scoped task: how many segments of the future have run -/
+  pc : Nat := 0
   deriving DecidableEq, Repr, Inhabited
 
 /-- body tokens (harness grammar) -/
@@ -459,6 +505,10 @@ inductive BOp where
   | watch (b : Nat) (hb : Nat) (imm : Bool)
   | render (b : Nat)
   | async (b : Nat)
+  | imm (b : Nat) (sc : Bool) (mutf : Bool)
+  /-- `if s.get_untracked() < v { s.set(v) }` — the write that makes an `ImmediateEffect` recurse -/
+  | write (s : Nat) (v : Nat)
+  | spawn (b : Nat) (cancel : Bool)
   deriving DecidableEq, Repr, Inhabited
 
 structure St extends Core where
@@ -470,6 +520,8 @@ structure St extends Core where
   obs : Option Sub := none
   acc : Int := 0
   memoDepth : Nat := 0
+  /-- how many `ImmediateEffect::new_mut` functions are on the call stack -/
+  mutDepth : Nat := 0
   /-- ghost: a `watch` handler created an arena value / registered a cleanup / looked up a context
   while no `Owner::with` frame was active at all -/
   watchHit : Bool := false
@@ -498,10 +550,23 @@ def keyLive (st : St) (e : Nat) : Option Key → Bool
   | some k => st.arena.get k == some (Val.eff e)
   | none => false
 
-/-- the `Arc<RwLock<EffectInner>>` (resp. `ArcAsyncDerived`) still has a strong reference -/
+def Ev.isCid (cid : Nat) : Ev → Bool
+  | .c _ x _ _ => x == cid
+  | _ => false
+
+/-- registered cleanup `cid` has run -/
+def cidRan (st : Core) (cid : Nat) : Bool := st.log.any (Ev.isCid cid)
+
+/-- the closure of cleanup `cid` still exists (it has not run) -/
+def dropLive (st : St) : Option Nat → Bool
+  | some cid => !cidRan st.toCore cid
+  | none => false
+
+/-- the `Arc<RwLock<EffectInner>>` (resp. `ArcAsyncDerived`) still has a strong reference; for a scoped
+task: it will still run user code when polled -/
 def effLive (st : St) (e : Nat) : Bool :=
   match st.effs[e]? with
-  | some r => r.held || keyLive st e r.key
+  | some r => r.held || keyLive st e r.key || dropLive st r.dropCid
   | none => false
 
 def subLive (st : St) : Sub → Bool
@@ -518,8 +583,10 @@ def addSource (st : St) (me : Sub) (s : Nat) : St :=
   | .eff e =>
     match st.effs[e]? with
     | some er =>
+      -- `ImmediateEffect`: only while the last run to start has not completed
+      let skip := er.kind.isImm && !decide (er.runDoneMax < er.runStart)
       let er' : EffRec :=
-        { er with sources := if er.sources.contains s then er.sources else er.sources ++ [s] }
+        { er with sources := if skip || er.sources.contains s then er.sources else er.sources ++ [s] }
       { st with effs := st.effs.set e er' }
     | none => st
   | .memo m =>
@@ -592,10 +659,11 @@ def runScoped (ex : St → BOp → St) (st : St) (e : Nat) (owner : Nat) (body :
   let st := st.lift (popCur · 1)
   { st with obs := saved.1, acc := saved.2 }
 
-/-- the record of a value that runs its body while it is being constructed -/
+/-- the record of a value that runs its body while it is being constructed (an `ImmediateEffect`
+starts `Dirty` and never has a task) -/
 def eagerEff (o b : Nat) (kind : EffKind) : EffRec :=
-  { key := none, owner := o, body := b, dirty := false, firstRun := false, notified := false,
-    woken := true, done := false, sources := [], kind := kind, held := true }
+  { key := none, owner := o, body := b, dirty := kind.isImm, firstRun := false, notified := false,
+    woken := !kind.isImm, done := kind.isImm, sources := [], kind := kind, held := true }
 
 /-- `Owner::new()` for a value that runs its body while it is being constructed; the record is
 entered first so that the body's tracked reads find their subscriber -/
@@ -609,8 +677,8 @@ def eagerOwner (st : St) : Nat := (newOwner st.toCore).2
 /-- `Executor::spawn` -/
 def addTask (st : St) (e : Nat) : St := { st with tasks := st.tasks ++ [e] }
 
-/-- `RenderEffect::new(body b)`: owner, first run at once (the owner is fresh, so `owner.with` and
-`with_cleanup` coincide), then the task is spawned; no arena item -/
+/-- `RenderEffect::new(body b)` / `new_isomorphic`: owner, first run at once (the owner is fresh, so
+`owner.with` and `with_cleanup` coincide), then the task is spawned; no arena item -/
 def newRender (ex : St → BOp → St) (st : St) (b : Nat) : St :=
   addTask (runScoped ex (pushEager st b EffKind.render) st.effs.length (eagerOwner st) b) st.effs.length
 
@@ -627,6 +695,149 @@ def newAsync (ex : St → BOp → St) (st : St) (b : Nat) : St :=
   finishAsync
     (addTask (runScoped ex (pushEager st b EffKind.async) st.effs.length (eagerOwner st) b) st.effs.length)
     st.effs.length
+
+/-! ### who holds an `Owner`
+
+An `Owner` is reference counted.  The model drops it when the last holder the harness can create lets
+go: an owner handle, the task of an effect (until it returns), an `ImmediateEffect` (until its handle
+is dropped / its `new_scoped` closure has run), a scoped task (until its future is dropped). -/
+
+def effHolds (st : St) (o : Nat) (er : EffRec) : Bool :=
+  er.owner == o && (if er.kind.isImm then er.held || dropLive st er.dropCid else !er.done)
+
+def ownerHeld (st : St) (o : Nat) : Bool :=
+  st.hOwners.contains (some o) || st.effs.any (effHolds st o)
+
+/-- a holder of owner `o` lets go -/
+def releaseOwner (st : St) (o : Nat) : St :=
+  if ownerHeld st o then st else st.lift (dropOwner · o)
+
+/-- `Owner::paused` -/
+def ownerPaused (st : Core) (o : Nat) : Bool :=
+  match st.owners[o]? with
+  | some r => r.paused
+  | none => false
+
+/-! ### `ImmediateEffect` -/
+
+/-- a run starts: `run_count_start += 1`, `sources.clear_sources(..)` -/
+def immBegin (st : St) (e : Nat) (er : EffRec) : St :=
+  let st := clearSources st (Sub.eff e) er.sources
+  { st with effs := st.effs.set e { er with runStart := er.runStart + 1, sources := [] } }
+
+/-- run number `rc` has completed -/
+def immEnd (st : St) (e : Nat) (rc : Nat) : St :=
+  match st.effs[e]? with
+  | none => st
+  | some er =>
+    let er1 : EffRec :=
+      if er.runStart == er.runDone + 1 then
+        { er with runStart := 0, runDone := 0, runDoneMax := 0, dirty := false }
+      else { er with runDone := er.runDone + 1, runDoneMax := max rc er.runDoneMax, dirty := false }
+    { st with effs := st.effs.set e er1 }
+
+/-- `update_if_necessary` of an `ImmediateEffect`: nothing while the owner is paused or the state is
+`Clean`; otherwise `owner.with_cleanup(|| with_observer(fun))` — also when an earlier run of the same
+effect is still in progress further up the call stack -/
+def immUpdate (ex : St → BOp → St) (st : St) (e : Nat) : St :=
+  match st.effs[e]? with
+  | none => st
+  | some er =>
+    if ownerPaused st.toCore er.owner || !er.dirty then st
+    else
+      let d := st.mutDepth
+      let st := immBegin st e er
+      let st := { st with mutDepth := d + (if er.kind.isMut then 1 else 0) }
+      let st := runScoped ex st e er.owner er.body
+      immEnd { st with mutDepth := d } e (er.runStart + 1)
+
+def immTag (e : Nat) : Nat := 2000000000 + e
+def abortTag (e : Nat) : Nat := 1000000000 + e
+
+/-- `new_scoped`: `on_cleanup(move || effect.dispose())` — with no current owner the closure, and with
+it the effect, is dropped at once -/
+def immScope (st : St) (e : Nat) : St :=
+  match st.effs[e]? with
+  | none => st
+  | some er =>
+    match currentOwner st.toCore with
+    | some _ =>
+      let cid := st.nextCid
+      let st := st.lift (regCleanup · (immTag e) false (some er.owner))
+      { st with effs := st.effs.set e { er with held := false, dropCid := some cid } }
+    | none => releaseOwner { st with effs := st.effs.set e { er with held := false } } er.owner
+
+/-- `ImmediateEffect::new(body b)` (…`_scoped`, `_mut`, `_isomorphic`): `Owner::new()`, first run at once -/
+def newImm (ex : St → BOp → St) (st : St) (b : Nat) (sc mutf : Bool) : St :=
+  let st1 := immUpdate ex (pushEager st b (EffKind.imm sc mutf)) st.effs.length
+  if sc then immScope st1 st.effs.length else st1
+
+/-- `Subscriber::mark_dirty` -/
+def markSub (ex : St → BOp → St) (st : St) : Sub → St
+  | .eff e =>
+    match st.effs[e]? with
+    | some er =>
+      if effLive st e then
+        if er.kind.isImm then immUpdate ex { st with effs := st.effs.set e { er with dirty := true } } e
+        else { st with effs := st.effs.set e { er with dirty := true, notified := true, woken := true } }
+      else st
+    | none => st
+  | .memo m =>
+    match st.memos[m]? with
+    | some mr => if memoLive st m then { st with memos := st.memos.set m { mr with dirty := true } } else st
+    | none => st
+
+/-- `RwSignal::try_set`: the subscribers (a snapshot) are marked in subscription order -/
+def setSig (ex : St → BOp → St) (st : St) (s : Nat) (v : Int) : St :=
+  match st.sigs[s]? with
+  | some r =>
+    if sigLive st s then
+      let st := { st with sigs := st.sigs.set s { r with val := v } }
+      r.subs.foldl (markSub ex) st
+    else st
+  | none => st
+
+/-- the `z<s>.<v>` token: `if s.get_untracked() < v { s.set(v) }`; not inside a memo, not while a
+`new_mut` function is running (it would panic) -/
+def writeSig (ex : St → BOp → St) (st : St) (s : Nat) (v : Nat) : St :=
+  if st.memoDepth > 0 || st.mutDepth > 0 then st
+  else
+    match st.sigs[s]? with
+    | some r => if sigLive st s && decide (r.val < (v : Int)) then setSig ex st s v else st
+    | none => st
+
+/-! ### scoped tasks -/
+
+def taskRec (o b : Nat) (cancel : Bool) (obs : Option Sub) (hook : Option Nat) : EffRec :=
+  { key := none, owner := o, body := b, dirty := false, firstRun := false, notified := false,
+    woken := true, done := false, sources := [], kind := EffKind.task cancel, held := hook.isNone,
+    dropCid := hook, tobs := obs }
+
+/-- the owner `ScopedFuture::new` captures: `Owner::current().unwrap_or_default()` -/
+def captureOwner (st : Core) : Core × Nat :=
+  match currentOwner st with
+  | some o => (st, o)
+  | none => newOwnerUnder st none false
+
+/-- `spawn_local_scoped(async { body; yield; body })`; with `cancel`: the `AbortHandle` goes into an
+`on_cleanup` closure of the current owner first (with no current owner the closure is dropped and
+nothing ever aborts the task) -/
+def newTask (st : St) (b : Nat) (cancel : Bool) : St :=
+  let hook := if cancel && (currentOwner st.toCore).isSome then some st.nextCid else none
+  let c0 := if hook.isSome then regCleanup st.toCore (abortTag st.effs.length) false none else st.toCore
+  let (c1, o) := captureOwner c0
+  { st with toCore := c1, tasks := st.tasks ++ [st.effs.length],
+            effs := st.effs ++ [taskRec o b cancel st.obs hook] }
+
+/-- the observer of the body being run is an `ImmediateEffect` of `new_scoped`, i.e. the current
+owner is one that a cleanup closure drops -/
+def inScopedImm (st : St) : Bool :=
+  match st.obs with
+  | some (.eff e) =>
+    match st.effs[e]? with
+    | some er => er.kind.isScopedImm
+    | none => false
+  | _ => false
 
 /-- `MemoInner::update_if_necessary` taking the `Dirty` branch -/
 def runMemo (ex : St → BOp → St) (st : St) (m : Nat) : St :=
@@ -660,12 +871,14 @@ def getMemo (ex : St → BOp → St) (st : St) (m : Nat) : St :=
   else st.lift (logEv · (Ev.g m none))
 
 /-- one body token; `ex` executes the tokens of bodies that run synchronously inside this one
-(memo recomputation, first run of a render effect / async derived) -/
+(memo recomputation, first run of a render effect / async derived, every run of an
+`ImmediateEffect`).  Scoped tasks are not spawned from inside a memo or a `new_scoped` effect (whose
+owners are dropped by arena values / cleanup closures, outside the reference count kept here) -/
 def execWith (ex : St → BOp → St) (st : St) : BOp → St
   | .read s => readSig st s
   | .get m => if st.memoDepth > 0 then st else getMemo ex st m
-  | .cleanup tag => st.lift (regCleanup · tag false)
-  | .nested tag => st.lift (regCleanup · tag true)
+  | .cleanup tag => st.lift (regCleanup · tag false none)
+  | .nested tag => st.lift (regCleanup · tag true none)
   | .item v => st.lift (newStored · v)
   | .sig v => newSignal st v
   | .provide ty v => st.lift (provide · ty v)
@@ -677,15 +890,20 @@ def execWith (ex : St → BOp → St) (st : St) : BOp → St
   | .watch b hb imm => newEffect st b (EffKind.watch imm hb)
   | .render b => newRender ex st b
   | .async b => newAsync ex st b
+  | .imm b sc mutf => newImm ex st b sc mutf
+  | .write s v => writeSig ex st s v
+  | .spawn b cancel => if st.memoDepth > 0 || inScopedImm st then st else newTask st b cancel
 
-/-- token execution with a bound on the depth of synchronously nested bodies: a body only names
-earlier bodies, and a memo is recomputed only outside memo runs, so a chain of nested runs is at
-most "decreasing bodies, one memo, decreasing bodies": `2 * bodies.length + 3` is never exhausted -/
+/-- token execution with a bound on the depth of synchronously nested bodies.  A body only names
+earlier bodies and a memo is recomputed only outside memo runs, so without writes a chain of nested
+runs is at most "decreasing bodies, one memo, decreasing bodies"; a write that triggers an
+`ImmediateEffect` strictly raises a signal, and the generator keeps the targets few and the values
+small.  (If the fuel ran out the model would stop short of the implementation and the case fail.) -/
 def exec : Nat → St → BOp → St
   | 0, st, op => execWith (fun s _ => s) st op
   | f + 1, st, op => execWith (exec f) st op
 
-def execBOp (st : St) (op : BOp) : St := exec (2 * st.bodies.length + 3) st op
+def execBOp (st : St) (op : BOp) : St := exec (16 * (st.bodies.length + 2)) st op
 
 /-- a token of a `watch` handler (reads are untracked).  `watchHit` records that something was
 created for the handler while no owner frame was active -/
@@ -693,7 +911,7 @@ def execHandlerTok (st : St) : BOp → St
   | .read s => readSig st s
   | .cleanup tag =>
     let hit := st.cur.isEmpty
-    { (st.lift (regCleanup · tag false)) with watchHit := st.watchHit || hit }
+    { (st.lift (regCleanup · tag false none)) with watchHit := st.watchHit || hit }
   | .item v =>
     let hit := st.cur.isEmpty
     { (st.lift (newStored · v)) with watchHit := st.watchHit || hit }
@@ -727,12 +945,10 @@ def runHandlerNew (st : St) (e : Nat) (o : Nat) (hb : Nat) : St :=
 def runHandler (st : St) (e : Nat) (o : Nat) (hb : Nat) : St :=
   if st.legacyWatch then runHandlerOld st e hb else runHandlerNew st e o hb
 
-/-- the effect's task has seen its channel closed: it returns, dropping its `Owner` -/
+/-- the effect's task has seen its channel closed: it returns, letting go of its `Owner` -/
 def endTask (st : St) (e : Nat) : St :=
   match st.effs[e]? with
-  | some er =>
-    let st := { st with effs := st.effs.set e { er with woken := false, done := true } }
-    st.lift (dropOwner · er.owner)
+  | some er => releaseOwner { st with effs := st.effs.set e { er with woken := false, done := true } } er.owner
   | none => st
 
 /-- `subscriber.clear_sources(..)` (not for an async derived) and the loop's flags -/
@@ -755,11 +971,37 @@ def afterRun (st : St) (e : Nat) (er : EffRec) : St :=
 def runEffect (st : St) (e : Nat) (er : EffRec) : St :=
   afterRun (runScoped execBOp (prepRun st e er) e er.owner er.body) e er
 
-/-- `Owner::paused` -/
-def ownerPaused (st : Core) (o : Nat) : Bool :=
-  match st.owners[o]? with
-  | some r => r.paused
-  | none => false
+/-- one segment of a scoped task's future: `owner.with(|| observer.with_observer(|| fut.poll(cx)))` -/
+def runSeg (ex : St → BOp → St) (st : St) (e : Nat) (er : EffRec) : St :=
+  let saved := (st.obs, st.acc)
+  let st := st.lift fun c => logEv (pushCur c er.owner) (Ev.r e)
+  let st := { st with obs := er.tobs, acc := 0 }
+  let st := (bodyOf st er.body).foldl ex st
+  let st := st.lift (logEv · (Ev.s e st.acc))
+  let st := st.lift (popCur · 1)
+  { st with obs := saved.1, acc := saved.2 }
+
+/-- the task's future is dropped (it completed, or `Abortable` returned `Aborted`): the
+`ScopedFuture` lets go of its `Owner` -/
+def finishTask (st : St) (e : Nat) : St :=
+  match st.effs[e]? with
+  | some er =>
+    releaseOwner { st with effs := st.effs.set e { er with woken := false, done := true, held := false } } er.owner
+  | none => st
+
+/-- the segment is over: the future yields once after the first segment (waking itself) and
+completes after the second; `Abortable` looks at the abort flag again before it returns `Pending` -/
+def afterSeg (st : St) (e : Nat) : St :=
+  match st.effs[e]? with
+  | some er =>
+    if !effLive st e || decide (1 ≤ er.pc) then finishTask st e
+    else { st with effs := st.effs.set e { er with pc := er.pc + 1, woken := true } }
+  | none => st
+
+/-- one poll of a scoped task: an aborted task returns at once, without polling the user's future -/
+def pollTask (st : St) (e : Nat) (er : EffRec) : St :=
+  if !effLive st e then finishTask st e
+  else afterSeg (runSeg execBOp { st with effs := st.effs.set e { er with woken := false } } e er) e
 
 /-- one poll of effect `e`'s task -/
 def pollEff (st : St) (e : Nat) : St :=
@@ -767,6 +1009,7 @@ def pollEff (st : St) (e : Nat) : St :=
   | none => st
   | some er =>
     if er.done then st
+    else if er.kind.isTask then pollTask st e er
     else if !effLive st e then endTask st e   -- `rx.next()` = None
     else if !er.notified then { st with effs := st.effs.set e { er with woken := false } }
     else if ownerPaused st.toCore er.owner || !(er.dirty || er.firstRun) then
@@ -790,29 +1033,6 @@ def pollNth (st : St) (i : Nat) : St :=
 def runIdle : Nat → St → St
   | 0, st => st
   | n + 1, st => if (ready st).isEmpty then st else runIdle n (pollNth st 0)
-
-def markSub (st : St) : Sub → St
-  | .eff e =>
-    match st.effs[e]? with
-    | some er =>
-      if effLive st e then
-        { st with effs := st.effs.set e { er with dirty := true, notified := true, woken := true } }
-      else st
-    | none => st
-  | .memo m =>
-    match st.memos[m]? with
-    | some mr => if memoLive st m then { st with memos := st.memos.set m { mr with dirty := true } } else st
-    | none => st
-
-/-- `RwSignal::try_set` -/
-def setSig (st : St) (s : Nat) (v : Int) : St :=
-  match st.sigs[s]? with
-  | some r =>
-    if sigLive st s then
-      let st := { st with sigs := st.sigs.set s { r with val := v } }
-      r.subs.foldl markSub st
-    else st
-  | none => st
 
 /-- `owner.with_cleanup(|| body)` called directly on an owner handle -/
 def runWc (st : St) (o : Nat) (b : Nat) : St :=
@@ -864,12 +1084,17 @@ def disposeEff (st : St) (i : Nat) : Option St :=
   | some er =>
     match er.key with
     | some k => some (st.lift (disposeKey · k))
-    | none => some { st with effs := st.effs.set i { er with held := false } }
+    | none =>
+      -- no handle to a scoped task or to a `new_scoped` effect
+      if er.kind.isTask || er.kind.isScopedImm then none
+      else if er.kind.isImm then
+        some (releaseOwner { st with effs := st.effs.set i { er with held := false } } er.owner)
+      else some { st with effs := st.effs.set i { er with held := false } }
   | none => none
 
 def dropHandle (st : St) (h : Nat) : St :=
   match heldOwner st h with
-  | some o => { st with hOwners := st.hOwners.set h none }.lift (dropOwner · o)
+  | some o => releaseOwner { st with hOwners := st.hOwners.set h none } o
   | none => st
 
 def pushAll (st : Core) (os : List Nat) : Core := { st with cur := os.reverse ++ st.cur }
@@ -908,7 +1133,7 @@ def stepOp (st : St) : Op → Option St
     match handleKey st k i with
     | some key => some (st.lift (disposeKey · key))
     | none => none
-  | .set s v => if s < st.sigs.length then some (setSig st s v) else none
+  | .set s v => if s < st.sigs.length then some (setSig execBOp st s v) else none
   | .pause h =>
     match heldOwner st h with
     | some o => some (st.lift (setPaused · o true))
